@@ -852,7 +852,7 @@ def family_c09(tier, seed):
         e0 = C("_expr_0")
         extra = [
             ("x:let-named-table_1", Prog([From("table_0"), Select("a", "c"), Join("table_1", "==a"), Select("table_0.c", "table_1._expr_0")])),
-            ("x:cte-vs-user-table_0", Prog([From("table_1"), Derive(x=C("a") + 1), Filter(C("x") > 1), Join("table_0", "==a"), Select("table_1.x", "table_0.c")])),
+            ("x:cte-vs-user-table_0", Prog([From("table_1"), Derive(x=C("a") + 1), Filter(C("x") > 1), Join("table_0", "==a"), Select("x", "table_0.c")])),
             ("x:alias-table_0", Prog([From("table_2", alias="table_0"), Derive(x=C("a") + 1), Filter(C("x") > 0), Select("x", "d")])),
             ("x:derive-named-_expr_1", Prog([From("table_0"), Select("a", "_expr_0"), Derive(_expr_1=C("a") + 1), Group(["a"], Sort("_expr_0"), Take(1))])),
             ("x:two-ctes", Prog([From("table_0"), Select("a", "c"), Derive(x=C("a") + 1), Filter(C("x") > 1), Sort("c"), Take(2), Join("table_1", "==a"), Filter(C("table_1._expr_0") > 0)])),
@@ -864,7 +864,7 @@ def family_c09(tier, seed):
             ("x:self-join-table_1-after-cte", Prog([From("table_0"), Select("a", "c"), Derive(x=C("a") + 1), Filter(C("x") > 1), Join("table_1", "==a"), Join("table_1", C("table_0.c") == C("that.a"))])),
             ("x:alias-like-generated", Prog([From("table_2", alias="table_1"), Join("table_2", C("table_1.a") == C("that.d"))])),
             ("x:let-named-table_0", Prog([From("table_0"), Join("table_2", "==a")], lets=[("table_0", [From("table_1"), Filter(C("a") > 0)])])),
-            ("x:let-named-table_0-cte", Prog([From("table_2"), Derive(x=C("a") + 1), Filter(C("x") > 1), Join("table_0", "==a"), Select("table_2.x", "table_0._expr_0")],
+            ("x:let-named-table_0-cte", Prog([From("table_2"), Derive(x=C("a") + 1), Filter(C("x") > 1), Join("table_0", "==a"), Select("x", "table_0._expr_0")],
                                             lets=[("table_0", [From("table_1"), Filter(C("a") > 0)])])),
         ]
         out += extra
